@@ -31,13 +31,47 @@ macro_rules! engine {
         }
     };
 }
+/// `imp vdelta W U e fp fn pl ps vflag vl vs dl ds prl prs incl`: the real `SwapMarketExt::swap_impact_value` on a
+/// market whose liquidity pool holds (pl, ps) and whose virtual inventory for swaps is (vl, vs) when `vflag` = 1.
+macro_rules! vengine {
+    ($name:ident, $U:ty, $I:ty, $D:expr) => {
+        fn $name(t: &[&str]) -> Option<String> {
+            use gmsol_model::SwapMarketExt;
+            use h_model::market::TestMarket;
+            let u = |i: usize| -> Option<$U> { t.get(i)?.parse::<$U>().ok() };
+            let s = |i: usize| -> Option<$I> { t.get(i)?.parse::<$I>().ok() };
+            if t.len() != 16 || u(2)? != <$U as FixedPointOps<$D>>::UNIT { return None; }
+            let mut m = TestMarket::<$U, $D>::default();
+            m.config.swap_impact_params = PriceImpactParams::<$U>::builder().exponent(u(3)?).positive_factor(u(4)?).negative_factor(u(5)?).build();
+            let (pl, ps): ($I, $I) = (u(6)?.try_into().ok()?, u(7)?.try_into().ok()?);
+            m.primary.apply_delta_to_long_amount(&pl).ok()?;
+            m.primary.apply_delta_to_short_amount(&ps).ok()?;
+            let vflag = match t[8] { "1" => true, "0" => false, _ => return None };
+            let (vl, vs): ($I, $I) = (u(9)?.try_into().ok()?, u(10)?.try_into().ok()?);
+            if vflag {
+                let mut v = h_model::market::TestPool::<$U>::default();
+                v.apply_delta_to_long_amount(&vl).ok()?;
+                v.apply_delta_to_short_amount(&vs).ok()?;
+                m.vi_swaps = Some(v);
+            }
+            let incl = match t[15] { "1" => true, "0" => false, _ => return None };
+            let Ok(d) = m.primary.pool_delta_with_values(s(11)?, s(12)?, &u(13)?, &u(14)?) else { return Some("none".into()) };
+            Some(match m.swap_impact_value(&d, incl) {
+                Ok(pi) => format!("ok {} {}", pi.value, match pi.balance_change { BalanceChange::Improved => 0, BalanceChange::Worsened => 1, BalanceChange::Unchanged => 2 }),
+                Err(_) => "none".into(),
+            })
+        }
+    };
+}
+vengine!(vexec64, u64, i64, 9);
+vengine!(vexec128, u128, i128, 20);
 engine!(exec64, u64, i64, 9);
 engine!(exec128, u128, i128, 20);
 
 fn exec(req: &str) -> String {
     let t: Vec<&str> = req.split(' ').collect();
     if t.len() < 3 || t[0] != "imp" { return "bad-op".into(); }
-    let r = std::panic::catch_unwind(|| match t[2] { "64" => exec64(&t[1..]), "128" => exec128(&t[1..]), _ => None });
+    let r = std::panic::catch_unwind(|| match (t[1], t[2]) { ("vdelta", "64") => vexec64(&t[1..]), ("vdelta", "128") => vexec128(&t[1..]), (_, "64") => exec64(&t[1..]), (_, "128") => exec128(&t[1..]), _ => None });
     match r { Ok(Some(s)) => s, Ok(None) => "bad-op".into(), Err(_) => "panic".into() }
 }
 
@@ -71,6 +105,18 @@ fn gen_reqs(r: &mut Rng) -> Vec<String> {
     // delta: small nudges, cross-over sized, exact cancel
     let dl: i128 = match r.below(6) { 0 => 0, 1 => -(pl as i128), 2 => (ps as i128) - (pl as i128) + r.range(0, 4) as i128 - 2, 3 => -((pl / 3) as i128), _ => (val(r) as i128) / 2 };
     let ds: i128 = match r.below(6) { 0 | 1 | 2 => 0, 3 => -((ps / 2) as i128), 4 => -(ps as i128), _ => (val(r) as i128) / 3 };
+    if r.chance(1, 4) {
+        // swap impact with a virtual inventory: forward change and its exact reverse (prices 1/1), the virtual pool
+        // imbalanced the same way / the other way / balanced / absent
+        let vflag = !r.chance(1, 6);
+        let (vl, vs) = match r.below(5) { 0 => (pl * 3 + val(r), ps), 1 => (pl, ps * 3 + val(r)), 2 => (ps, pl), 3 => (val(r), val(r)), _ => (pl, ps) };
+        let incl = if r.chance(1, 8) { 0 } else { 1 };
+        let nl = pl as i128 + dl; let ns = ps as i128 + ds;
+        let (vnl, vns) = (vl as i128 + dl, vs as i128 + ds);
+        let first = format!("imp vdelta {w} {unit} {e} {fp} {fneg} {pl} {ps} {} {vl} {vs} {dl} {ds} 1 1 {incl}", vflag as u8);
+        if nl < 0 || ns < 0 || vnl < 0 || vns < 0 { return vec![first]; }
+        return vec![first, format!("imp vdelta {w} {unit} {e} {fp} {fneg} {nl} {ns} {} {vnl} {vns} {} {} 1 1 {incl}", vflag as u8, -dl, -ds)];
+    }
     if r.chance(2, 3) {
         // round-trip pair at prices 1/1 (values == amounts)
         let first = format!("imp delta {w} {unit} {e} {fp} {fneg} {pl} {ps} {dl} {ds} 1 1");
@@ -95,10 +141,51 @@ fn main() {
         v
     };
     let mut prev: Option<(Vec<String>, Option<(i128, u8)>)> = None;
+    let mut vprev: Option<(Vec<String>, Option<(i128, u8)>)> = None;
     for req in reqs {
         let resp = exec(&req);
         if resp == "panic" { out.oracle_fail("panicked", &req); }
         let t: Vec<&str> = req.split(' ').collect();
+        if t.len() == 17 && t[1] == "vdelta" {
+            // ---- swap impact with a virtual inventory: oracles from the property text, on exact integers
+            let res = parse_ok(&resp);
+            out.stat("op.vdelta");
+            let n = |i: usize| -> Option<i128> { t[i].parse::<i128>().ok() };
+            if let (Some((x, _)), Some(pl), Some(ps), Some(dl), Some(ds), Some(prl), Some(prs)) = (res, n(7), n(8), n(12), n(13), n(14), n(15)) {
+                // balance change of the REAL pool, recomputed
+                let real_change = (|| { let (cl, cs) = (pl.checked_mul(prl)?, ps.checked_mul(prs)?); let (nl, ns) = (cl.checked_add(dl)?, cs.checked_add(ds)?); Some(((cl - cs).unsigned_abs(), (nl - ns).unsigned_abs(), (cl <= cs) != (nl <= ns))) })();
+                if let Some((i0, i1, crossed)) = real_change {
+                    if i1 >= i0 && x > 0 { out.oracle_fail("a change that does not improve the real pool's balance received a positive impact (virtual inventory in play)", &req); }
+                    out.stat(if i1 < i0 { "v.real_improved" } else { "v.real_not_improved" });
+                    let _ = crossed;
+                }
+                // never better than the impact on the real pool alone
+                let plain = exec(&format!("imp delta {} {} {} {} {} {} {} {} {} {} {}", t[2], t[3], t[4], t[5], t[6], t[7], t[8], t[12], t[13], t[14], t[15]));
+                if let Some((y, _)) = parse_ok(&plain) {
+                    if x > y { out.oracle_fail(&format!("the virtual inventory IMPROVED the impact: {x} > real pool's {y}"), &req); }
+                    out.stat(if x < y { "v.virtual_taken" } else { "v.real_taken" });
+                }
+            } else { out.stat("v.none"); }
+            // round trip: this request is the exact reverse of the previous vdelta
+            if let Some((pt, pres)) = &vprev {
+                let rev = pt[2..7] == t[2..7].iter().map(|s| s.to_string()).collect::<Vec<_>>()[..] && pt[9] == t[9] && pt[14] == "1" && pt[15] == "1" && t[14] == "1" && t[15] == "1" && pt[16] == t[16]
+                    && n(12) == pt[12].parse::<i128>().ok().and_then(|v| v.checked_neg()) && n(13) == pt[13].parse::<i128>().ok().and_then(|v| v.checked_neg())
+                    && n(7).is_some() && n(7) == pt[7].parse::<i128>().ok().zip(pt[12].parse::<i128>().ok()).and_then(|(a, b)| a.checked_add(b))
+                    && n(8).is_some() && n(8) == pt[8].parse::<i128>().ok().zip(pt[13].parse::<i128>().ok()).and_then(|(a, b)| a.checked_add(b));
+                if rev {
+                    if let (Some((x, _)), Some((y, _))) = (pres, &res) {
+                        out.stat("v.roundtrip.pairs");
+                        let total = x.checked_add(*y).unwrap_or(if *x > 0 { i128::MAX } else { -1 });
+                        if total > 1 { out.oracle_fail(&format!("round trip with a virtual inventory yields positive total impact {total}"), &req); }
+                        else if total == 1 { out.known("F-C03b", "same-side round trip nets +1 unit of value (floor rounding)", &req); }
+                    }
+                }
+            }
+            vprev = Some((t.iter().map(|s| s.to_string()).collect(), res));
+            let nt = matches!(res, Some((x, _)) if x != 0);
+            out.case_nt(&req, &resp, nt);
+            continue;
+        }
         let res = parse_ok(&resp);
         let co = cross_over(&t, t[1] == "deltaamt");
         if let Some((x, bc)) = res {
